@@ -4,6 +4,27 @@ import json, os
 ROOT = os.path.dirname(os.path.abspath(__file__))
 
 CLAIMED = {
+ 'C12': dict(
+    category='other',
+    text='PARTIAL (build phase + atomicity of input(); scanner totality on arbitrary text is not claimed). Bounded-exhaustive symbolic execution of the real '
+         'populate_* / deserialize_value code on statement objects: every value token of a 21-token pool covering all lexical classes in columns of 7 type '
+         'names (positional and named inserts), associations naming defined/undefined classes and present/missing key attributes on either end with and without '
+         'rows, unique indices on missing classes/attributes: only ParsingException or MetaException may escape build_metamodel. input(): every sequence of '
+         'three calls from a pool of accepted and rejected texts (lexical error, syntax error after valid statements, illegal cardinality raised inside a '
+         'production, truncated input) on one loader: a rejected call leaves loader.statements identical and later builds equal those of a fresh loader fed '
+         'only the accepted texts; plus the same with the parser replaced by a nondeterministic stub. "Confirmed over all paths" per condition.',
+    design_ref='DESIGN.md section 5, C12 and section 6',
+    note='texts are realised and parsed by the real PLY parser outside the tracer; arbitrary strings / random token sequences / time bounds are outside the claim.',
+    technique='bounded symbolic execution of the real code (CrossHair + z3) over statement objects and text pools'),
+ 'C18': dict(
+    category='other',
+    text='Bounded-exhaustive symbolic execution: after a first build, EVERY sequence of 2 (quick; plus seed-rotated shards of the 3-step space; thorough: all 3-step '
+         'sequences) steps out of {build again, input more text, 10 kinds of mutation applied to either of the first two built metamodels (attribute write, '
+         'id write, new, delete, relate, unrelate, append/delete attribute, define identifier, define class)} followed by a final build; after every step all '
+         'other metamodels serialise exactly as before, and every build equals the build of a fresh loader given the same accepted inputs.',
+    design_ref='DESIGN.md section 5, C18',
+    note='one schema (two classes, 1:M association, identifier); fixed mutation values; texts realised and parsed outside the tracer; build_metamodel and mutations traced.',
+    technique='bounded symbolic execution of the real code (CrossHair + z3), exhaustive over step sequences'),
  'C03': dict(
     category='other',
     text='Bounded-exhaustive symbolic execution of the real loader/metamodel code. Join: for 8 key schemas (single keys of every core type, composite '
